@@ -1,4 +1,6 @@
 """C17 — the global system is the superposition of all bar contributions."""
+from fractions import Fraction as Fr
+
 from .. import gen_struct as G
 from .. import oracles as O
 from .. import stages as S
@@ -42,6 +44,17 @@ def gen(rng, tier):
     for i, c in enumerate(cases):
         if i % 3 == 1 and not c.get("ViaPre"):
             c["Reassemble"] = True
+    # models written with unit properties (E = A = I = 1, finite elements of length 1): diagonal terms that are exactly 1
+    for i in range(2):
+        s = G.Structure()
+        s.mats = {"unit": (Fr(0), Fr(1), Fr(1), Fr("0.3"), Fr(1), Fr(1))}
+        s.secs = {"unit": (Fr(1), Fr(1), Fr(1), Fr(1), Fr(1))}
+        s.nodes = {"a": (Fr(0), Fr(0), (True, True, True)), "b": (Fr(6), Fr(0), (False, False, False)), "c": (Fr(6), Fr(10), (True, True, i == 1))}
+        s.bars = [{"id": "b1", "n1": "a", "l1": (True, True, True), "n2": "b", "l2": (True, True, True), "mat": "unit", "sec": "unit"},
+                  {"id": "b2", "n1": "c", "l1": (True, True, True), "n2": "b", "l2": (True, True, True), "mat": "unit", "sec": "unit"}]
+        s.loads = [{"kind": "d", "term": "fx", "local": True, "bar": "b2", "t0": Fr("0.3"), "v0": Fr(2), "t1": Fr("0.7"), "v1": Fr(2)}]
+        s.meta = {"kind": "unit-valued"}
+        cases.append(core.case_from_struct(s, Weight=False, Assemble=True))
     # several structures assembled at the same time, each in a goroutine of its own in one process
     for i in range(10 if tier == "quick" else 40):
         c = core.case_from_struct(G.gen_frame(rng, max_cells=2), Weight=core.weights(i), Assemble=True, Concurrent=True)
